@@ -388,6 +388,25 @@ def h_late_group(eng, how):
         eng.prove({str(u) for u in ureg.get_compatible_units("m")} & {"yd", "ft", "m"} == old_units, f"late-group:{how}:pre={pre}:compatible-under-default-system")
 
 
+def h_root_group_listing(eng):
+    """a compatible-unit query restricted to the group 'root' lists the members of root, like a
+    query restricted to any other group"""
+    ureg = pint.UnitRegistry(non_int_type=eng.ntype)
+    root = ureg.get_group("root")
+    for probe in ("kelvin", "meter", "second", "gram", "radian", "joule"):
+        everything = {str(u) for u in ureg.get_compatible_units(probe, "")} if False else None
+        got = {str(u) for u in ureg.get_compatible_units(probe, "root")}
+        eng.prove(got <= set(root.members), f"root-group-listing:{probe}:only-members-of-root")
+        ureg.default_system = None
+        unrestricted = {str(u) for u in ureg.get_compatible_units(probe)}
+        ureg.default_system = "mks"
+        eng.prove(got == unrestricted & set(root.members), f"root-group-listing:{probe}:exactly-the-compatible-members")
+        del everything
+    ureg.get_group("international").remove_units("angstrom")
+    root.remove_units("angstrom")
+    eng.prove("angstrom" not in {str(u) for u in ureg.get_compatible_units("meter", "root")}, "root-group-listing:unit-removed-from-root-is-not-listed")
+
+
 def h_group_edit_failures(eng):
     """an edit that is refused part-way leaves the memoised members in step with what was
     actually changed; a group cannot use itself"""
@@ -497,6 +516,7 @@ def cases(tier, seed):
     for where in ("first", "second", "only"):
         out.append(Case("H14.b", f"failed-system-declaration:{where}", M, "h_failed_system_declaration", {"where": where}, opts={"hash_mode": "mixed"}, validate=1))
     out.append(Case("H14.c", "group-edit-failures", M, "h_group_edit_failures", {}, validate=1))
+    out.append(Case("H14.c", "root-group-listing", M, "h_root_group_listing", {}, validate=1))
     for how in ("api", "text-using", "text"):
         out.append(Case("H14.c", f"late-group:{how}", M, "h_late_group", {"how": how}, validate=1))
     out.append(Case("H14.c-default", "members", M, "h_default_membership", {}, kind="conc"))
